@@ -144,10 +144,10 @@ open CV CV.GenFlat
 /-! ### label ranges of generated code -/
 
 /-- `l` was allocated between generator states `g` and `g'` -/
-def NewIn (g g' : GState) (l : Lbl) : Prop := g.ctr l.kind.ctr < l.n ∧ l.n ≤ g'.ctr l.kind.ctr
+def NewIn (g g' : GState) (l : Lbl) : Prop := g.ctr l.kind.ctr < l.idx ∧ l.idx ≤ g'.ctr l.kind.ctr
 def Mono (g g' : GState) : Prop := ∀ c, g.ctr c ≤ g'.ctr c
 /-- every label defined in `code` was allocated before `g` -/
-def Old (g : GState) (code : List GLine) : Prop := ∀ l ∈ labels code, l.n ≤ g.ctr l.kind.ctr
+def Old (g : GState) (code : List GLine) : Prop := ∀ l ∈ labels code, l.idx ≤ g.ctr l.kind.ctr
 
 /-- what a generation step guarantees about its labels -/
 def Fresh (g : GState) (r : List GLine × GState) : Prop :=
@@ -184,7 +184,7 @@ theorem Fresh.not_mem_of_old {g : GState} {r : List GLine × GState} {pre : List
   omega
 
 theorem branchInstr_fresh (g : GState) (op : COp) (label : Lbl) : Fresh g (branchInstr g op label) := by
-  cases op <;> simp [branchInstr, Fresh, Mono, NewIn, LKind.ctr, GState.ctr]
+  cases op <;> simp [branchInstr, Fresh, Mono, NewIn, LKind.ctr, GState.ctr, Lbl.idx]
   intro c; cases c <;> simp
 
 end CV.GenStruct
@@ -228,13 +228,6 @@ theorem genCondEx_fresh (g : GState) (l r : Atom) (op : COp) (negate : Bool) (la
     · exact zeroTest_fresh ..
     · exact cmpTest_fresh ..
 
-theorem genCond_fresh (g : GState) (c : Cond) (negate : Bool) (label : Lbl) :
-    Fresh g (genCond g c negate label) := by
-  cases c with
-  | cmp op a b => exact genCondEx_fresh ..
-  | truth v => exact zeroTest_fresh ..
-  | nottruth v => exact zeroTest_fresh ..
-
 theorem labels_flatLines (s : FStmt) : labels (flatLines s) = [] := by
   unfold flatLines
   generalize template (none : Option Atom) (fun a => some a) s = t
@@ -276,6 +269,54 @@ theorem fresh_of {g g0 g2 : GState} {mid code : List GLine} (x : Option String) 
     | inl hmid => have := (h.2 l hmid).widen hm (Mono.refl _); simpa [NewIn] using this
     | inr hn => simpa [NewIn] using hn
 
+theorem genCond_fresh (c : Cond) : ∀ (g : GState) (negate : Bool) (label : Lbl),
+    Fresh g (genCond g c negate label) := by
+  induction c with
+  | cmp op a b => intro g negate label; exact genCondEx_fresh ..
+  | truth v => intro g negate label; exact zeroTest_fresh ..
+  | nottruth v => intro g negate label; exact zeroTest_fresh ..
+  | not c ih => intro g negate label; simp only [genCond]; exact ih ..
+  | and a b iha ihb =>
+    intro g negate label
+    cases negate with
+    | true =>
+      simp only [genCond]
+      exact fresh_append (iha g true label) (ihb _ true label)
+    | false =>
+      simp only [genCond]
+      have h1 := iha { g with cIf := g.cIf + 1 } true ⟨.ifstart, g.cIf⟩
+      have h2 := ihb (genCond { g with cIf := g.cIf + 1 } a true ⟨.ifstart, g.cIf⟩).2 false label
+      have h := fresh_append h1 h2
+      have hk := h.1 .cIf
+      simp [GState.ctr] at hk
+      apply fresh_of none (mono_cIf g) h
+      intro l hl
+      simp at hl ⊢
+      rcases hl with hl | hl | hl
+      · exact Or.inl (Or.inl hl)
+      · exact Or.inl (Or.inr hl)
+      · subst hl; right; simp [NewIn, LKind.ctr, GState.ctr, Lbl.idx]; omega
+  | or a b iha ihb =>
+    intro g negate label
+    cases negate with
+    | false =>
+      simp only [genCond]
+      exact fresh_append (iha g false label) (ihb _ false label)
+    | true =>
+      simp only [genCond]
+      have h1 := iha { g with cIf := g.cIf + 1 } false ⟨.ifstart, g.cIf⟩
+      have h2 := ihb (genCond { g with cIf := g.cIf + 1 } a false ⟨.ifstart, g.cIf⟩).2 true label
+      have h := fresh_append h1 h2
+      have hk := h.1 .cIf
+      simp [GState.ctr] at hk
+      apply fresh_of none (mono_cIf g) h
+      intro l hl
+      simp at hl ⊢
+      rcases hl with hl | hl | hl
+      · exact Or.inl (Or.inl hl)
+      · exact Or.inl (Or.inr hl)
+      · subst hl; right; simp [NewIn, LKind.ctr, GState.ctr, Lbl.idx]; omega
+
 theorem gen_fresh (st : SStmt) : ∀ g : GState, Fresh g (gen g st) := by
   induction st with
   | flat s => intro g; exact genFlat_fresh g s
@@ -300,17 +341,17 @@ theorem gen_fresh (st : SStmt) : ∀ g : GState, Fresh g (gen g st) := by
     rcases hl with hl | hl | hl
     · exact Or.inl (Or.inl hl)
     · exact Or.inl (Or.inr hl)
-    · subst hl; right; simp [NewIn, LKind.ctr, GState.ctr]; omega
+    · subst hl; right; simp [NewIn, LKind.ctr, GState.ctr, Lbl.idx]; omega
   | ifElse c t e iht ihe =>
     intro g
     simp only [gen]
     rcases hcc : genCond { g with cIf := g.cIf + 1 } c true ⟨.else_, g.cIf + 1⟩ with ⟨cc, g1⟩
     rcases hct : gen g1 t with ⟨ct, g2⟩
-    rcases hce : gen { g2 with flags := g1.flags } e with ⟨ce, g3⟩
+    rcases hce : gen { g2 with flags := if c.singleExit then g1.flags else none } e with ⟨ce, g3⟩
     have hc : Fresh { g with cIf := g.cIf + 1 } (cc, g1) := hcc ▸ genCond_fresh ..
     have ht : Fresh g1 (ct, g2) := hct ▸ iht g1
     have he : Fresh g2 (ce, g3) := by
-      have := ihe { g2 with flags := g1.flags }
+      have := ihe { g2 with flags := if c.singleExit then g1.flags else none }
       rw [hce, fresh_flags_left] at this
       exact this
     have h3 := fresh_append (fresh_append hc ht) he
@@ -322,9 +363,9 @@ theorem gen_fresh (st : SStmt) : ∀ g : GState, Fresh g (gen g st) := by
     rcases hl with hl | hl | hl | hl | hl
     · exact Or.inl (Or.inl hl)
     · exact Or.inl (Or.inr (Or.inl hl))
-    · subst hl; right; simp [NewIn, LKind.ctr, GState.ctr]; omega
+    · subst hl; right; simp [NewIn, LKind.ctr, GState.ctr, Lbl.idx]; omega
     · exact Or.inl (Or.inr (Or.inr hl))
-    · subst hl; right; simp [NewIn, LKind.ctr, GState.ctr]; omega
+    · subst hl; right; simp [NewIn, LKind.ctr, GState.ctr, Lbl.idx]; omega
   | «while» c b ihb =>
     intro g
     simp only [gen]
@@ -339,10 +380,10 @@ theorem gen_fresh (st : SStmt) : ∀ g : GState, Fresh g (gen g st) := by
     intro l hl
     simp at hl ⊢
     rcases hl with hl | hl | hl | hl
-    · subst hl; right; simp [NewIn, LKind.ctr, GState.ctr]; omega
+    · subst hl; right; simp [NewIn, LKind.ctr, GState.ctr, Lbl.idx]; omega
     · exact Or.inl (Or.inl hl)
     · exact Or.inl (Or.inr hl)
-    · subst hl; right; simp [NewIn, LKind.ctr, GState.ctr]; omega
+    · subst hl; right; simp [NewIn, LKind.ctr, GState.ctr, Lbl.idx]; omega
   | doWhile b c ihb =>
     intro g
     simp only [gen]
@@ -357,10 +398,10 @@ theorem gen_fresh (st : SStmt) : ∀ g : GState, Fresh g (gen g st) := by
     intro l hl
     simp at hl ⊢
     rcases hl with hl | hl | hl | hl
-    · subst hl; right; simp [NewIn, LKind.ctr, GState.ctr]; omega
+    · subst hl; right; simp [NewIn, LKind.ctr, GState.ctr, Lbl.idx]; omega
     · exact Or.inl (Or.inl hl)
     · exact Or.inl (Or.inr hl)
-    · subst hl; right; simp [NewIn, LKind.ctr, GState.ctr]; omega
+    · subst hl; right; simp [NewIn, LKind.ctr, GState.ctr, Lbl.idx]; omega
   | «for» i c u b ihb =>
     intro g
     simp only [gen]
@@ -385,10 +426,10 @@ theorem gen_fresh (st : SStmt) : ∀ g : GState, Fresh g (gen g st) := by
     simp [genFlat, labels_flatLines] at hl ⊢
     rcases hl with hl | hl | hl | hl | hl | hl
     · exact Or.inl (Or.inl hl)
-    · subst hl; right; simp [NewIn, LKind.ctr, GState.ctr]; omega
+    · subst hl; right; simp [NewIn, LKind.ctr, GState.ctr, Lbl.idx]; omega
     · exact Or.inl (Or.inr (Or.inl hl))
-    · subst hl; right; simp [NewIn, LKind.ctr, GState.ctr]; omega
+    · subst hl; right; simp [NewIn, LKind.ctr, GState.ctr, Lbl.idx]; omega
     · exact Or.inl (Or.inr (Or.inr hl))
-    · subst hl; right; simp [NewIn, LKind.ctr, GState.ctr]; omega
+    · subst hl; right; simp [NewIn, LKind.ctr, GState.ctr, Lbl.idx]; omega
 
 end CV.GenStruct
